@@ -289,6 +289,11 @@ func (m *fStompSubscriberTransport) processMessages() {
 		select {
 		case <-stopC:
 			logger().Errorf("frugal: error processing stomp subscription messages, message received on stop channel")
+			// keep the subscription channel drained until it is closed: the subscription's
+			// read loop blocks on a full channel and would never get to the receipt of
+			// UNSUBSCRIBE that Unsubscribe is waiting for
+			for range m.sub.C {
+			}
 			return
 		case message, ok := <-m.sub.C:
 			logger().Debugf("frugal: received stomp message on topic '%s'", m.topic)
